@@ -112,10 +112,10 @@ var tmplIDs = []string{"t1", "t2"}
 type varsKind int
 
 const (
-	vNone varsKind = iota
-	vM             // m string
-	vMK            // m, k strings
-	vBadType       // m int (wrong type)
+	vNone    varsKind = iota
+	vM                // m string
+	vMK               // m, k strings
+	vBadType          // m int (wrong type)
 )
 
 func varsJSON(k varsKind) map[string]interface{} {
@@ -134,7 +134,7 @@ func varsJSON(k varsKind) map[string]interface{} {
 
 type taskView struct {
 	Type, Status, Script, TemplateID, DBRPs, Vars string
-	Executing                                      bool
+	Executing                                     bool
 }
 type catalogue struct {
 	Tasks     map[string]taskView
